@@ -1,24 +1,30 @@
 #!/bin/sh
-# Differential test of the Coq parser-side model against the real Go code.
-#   1. build the model (coqc), extract to OCaml, build the Go tool
-#   2. generate inputs (gen.py, fixed seed) and add, as a second generation,
+# Differential test of the Coq parser-side model against the real Go code
+# (stand-alone form of the tie leg of bin/check C02 / C03 / C04).
+#   usage: check.sh [seed [size]]
+#   1. build.sh: Go tool against $VERIF_REPO (default /repo), extracted model if stale
+#   2. generate inputs (gen.py --seed --size) and add, as a second generation,
 #      every String() the Go code printed for an accepted input
 #   3. run Go (tree dump via exported accessors, String(), path.go wrappers)
 #   4. run the model; its regex_ok oracle is answered by Go's ast.NewRegex
 #   5. compare accept/reject, trees, printed text, wrapper results, error kinds
 set -e
 HERE=$(cd "$(dirname "$0")" && pwd)
-OUT=${PV_OUT:-/var/tmp/parsevec-build}
+ROOT=$(cd "$HERE/../.." && pwd)
+OUT=${PV_OUT:-$ROOT/build/parsevec}
 export PV_OUT="$OUT"
+SEED=${1:-${VERIF_SEED:-1}}
+SIZE=${2:-16000}
 "$HERE/build.sh"
-cd "$OUT"
-python3 "$HERE/gen.py" > gen1.hex
-./parsevec < gen1.hex > go1.out
+mkdir -p "$OUT/standalone"
+cd "$OUT/standalone"
+python3 "$HERE/gen.py" --seed "$SEED" --size "$SIZE" > gen1.hex
+"$OUT/parsevec" < gen1.hex > go1.out
 # second generation: the printed form of every accepted input
 awk '$1=="OK" { s=$NF; if (s != "e") print substr(s, 2) }' go1.out | sort -u > gen2.hex
 cat gen1.hex gen2.hex | awk '!seen[$0]++' > inputs.hex
-./parsevec -api < inputs.hex > go.out
-./pv_driver collect < inputs.hex > regex_queries.txt
-./parsevec -regex < regex_queries.txt > regex_table.txt
-./pv_driver run regex_table.txt -api < inputs.hex > model.out
+"$OUT/parsevec" -api < inputs.hex > go.out
+"$OUT/pv_driver" collect < inputs.hex > regex_queries.txt
+"$OUT/parsevec" -regex < regex_queries.txt > regex_table.txt
+"$OUT/pv_driver" run regex_table.txt -api < inputs.hex > model.out
 python3 "$HERE/compare.py" inputs.hex go.out model.out | tee report.txt
